@@ -1,8 +1,8 @@
 /-
-Token-level twin of `PModel.text` (`Display for PreModel`, = `RoocParser::format`) on the program fragment
-without iterations and with simple names: objective, named / compared / asserted constraints, `where`
-constants, `define` declarations of the simple forms.  The driver checks on every generated program of the
-fragment that lexing the printed text gives exactly these tokens.  Import-free.
+Token-level twin of `PModel.text` (`Display for PreModel`, = `RoocParser::format`) on the printable fragment:
+objective, named / compared / asserted constraints with `for` iterations, `where` constants, `define`
+declarations with compound names, every variable type and `for` iterations.  The driver checks on every
+generated program of the fragment that lexing the printed text gives exactly these tokens.  Import-free.
 -/
 import Rooc.Syntax.FormatToks
 namespace Rooc.Syntax
@@ -13,13 +13,13 @@ def cmpTok : Cmp → Tok
 
 def cnameToks : CName → List Tok
   | .plain n => [.word n]
-  | .compound _ _ => []
+  | .compound n idx => .word n :: fmtToksIdx idx
 
 def constraintToks (c : PConstraint) : List Tok :=
   (match c.name with
    | some n => cnameToks n ++ [.colon]
    | none => [])
-    ++ fmtToks c.lhs ++ (if c.logic then [] else cmpTok c.cmp :: fmtToks c.rhs)
+    ++ fmtToks c.lhs ++ (if c.logic then [] else cmpTok c.cmp :: fmtToks c.rhs) ++ forToks c.iterVars c.iters
 
 def typeToks : PVarType → List Tok
   | .boolean => [.word "Boolean"]
@@ -35,7 +35,8 @@ def varListToks : List CName → List Tok
   | [v] => cnameToks v
   | v :: w :: rest => cnameToks v ++ .comma :: varListToks (w :: rest)
 
-def domainToks (d : PDomain) : List Tok := varListToks d.vars ++ .word "as" :: typeToks d.ty
+def domainToks (d : PDomain) : List Tok :=
+  varListToks d.vars ++ .word "as" :: typeToks d.ty ++ forToks d.iterVars d.iters
 
 def constraintsToks : List PConstraint → List Tok
   | [] => []
@@ -60,19 +61,42 @@ def progToks (m : PModel) : List Tok :=
     ++ ((if m.constants.isEmpty then [] else .word "where" :: .nl :: constsToks m.constants)
     ++ (if m.domains.isEmpty then [] else .word "define" :: .nl :: domainsToks m.domains)))
 
-/-- the program fragment as the printer sees it (checked by the driver before the printer/token link) -/
+/-- the text does not begin with a word that reads `for` in some letter case (`^"for"`: it would be taken for the
+iteration of the constraint / declaration before it) -/
+def notForHead : List Tok → Bool
+  | .word w :: _ => lowerWord w != "for"
+  | _ => true
+
+def coreName : CName → Bool
+  | .plain n => plainVar n
+  | .compound n idx => isPlainRun n.toList && !idx.isEmpty && coreIdx idx
+
+def coreFor (vs : List IterVar) (its : List PExp) : Bool :=
+  (vs.isEmpty && its.isEmpty) || (vs.length == its.length && vs.all printableIterVar && coreIters its)
+
+def coreType : PVarType → Bool
+  | .boolean | .nonNegReal none none | .real none none => true
+  | .nonNegReal (some a) (some b) | .real (some a) (some b) | .intRange a b => coreExp a && coreExp b
+  | _ => false
+
+/-- THE PRINTABLE FRAGMENT of programs (a decidable predicate; the generator is measured against it): every
+expression slot is in the printable fragment of expressions, names are plain or compound with plain parts, a
+domain type has both bounds or none, a satisfiability objective carries `true`, and a program with `where` /
+`define` has at least one constraint (the grammar cannot express the other case). -/
 def coreProgram (m : PModel) : Bool :=
-  coreExp m.objective
+  (match m.objKind with
+   | .solve => (match m.objective with | .bool true => true | _ => false)
+   | _ => coreExp m.objective)
     && m.constraints.all (fun c =>
-        (match c.name with | none => true | some (.plain n) => !(needsEscape n) | some (.compound _ _) => false)
-        && coreExp c.lhs && coreExp c.rhs && c.iters.isEmpty && c.iterVars.isEmpty)
-    && m.constants.all (fun k => coreExp k.2)
+        (match c.name with | none => true | some n => coreName n)
+        && coreExp c.lhs
+        && (if c.logic then (c.cmp == .eq && (match c.rhs with | .bool true => true | _ => false)) else coreExp c.rhs)
+        && coreFor c.iterVars c.iters && notForHead (constraintToks c))
+    && m.constants.all (fun k => (plainVar k.1 || k.1 == "_") && coreExp k.2)
     && m.domains.all (fun d =>
-        d.iters.isEmpty && d.iterVars.isEmpty && !d.vars.isEmpty
-        && d.vars.all (fun | .plain n => !(needsEscape n) | .compound _ _ => false)
-        && (match d.ty with
-            | .boolean | .nonNegReal none none | .real none none => true
-            | .nonNegReal (some a) (some b) | .real (some a) (some b) | .intRange a b => coreExp a && coreExp b
-            | _ => false))
+        !d.vars.isEmpty && d.vars.all coreName && coreType d.ty && coreFor d.iterVars d.iters && notForHead (domainToks d))
+    && (!m.constraints.isEmpty || (m.constants.isEmpty && m.domains.isEmpty))
+
+abbrev printable := coreProgram
 
 end Rooc.Syntax
